@@ -9,6 +9,7 @@ import BioSeq.Kmer
 import BioSeq.Iter
 import BioSeq.Misc
 import BioSeq.Standard
+import BioSeq.Serde
 import BioSeq.Generated.Tables
 
 open BioSeq
@@ -573,6 +574,11 @@ def query (x : Ctx) (q : String) : Q String := do
     let b ← qlift parseV; let r ← qr (evalV x b)
     if ¬ isOrd x.name then throw .unsup
     pure (ordStr (Seq.cmp l r))
+  | "serde" => do
+    let v ← qlift parseV; let bs ← qr (evalV x v)
+    let r := Serde.ser bs
+    let ok := match Serde.de r with | .ok b => b == bs | .error _ => false
+    pure s!"{showS x bs} {boolStr ok} {boolStr ok} {r.order} {r.headWidth} {r.headIndex} {r.bits} {natsStr r.data}"
   | "mapget" => do
     let n ← qlift num
     let mut keys : List Bits := []
